@@ -6,7 +6,7 @@ From RV.Model Require Import Base Word Limbs Bytes DivRecip DivSmall Redc.
 From RV.Model Require DivRef.
 From RV.Gen Require Import Prim Scalar.
 From RV.Model Require Add Mul UDiv Conv Bits.
-From RV.Proofs Require Import BaseFacts PfGenScalar PfGenAdd PfGenMul PfGenDiv PfGenSpecial PfGenCtor PfGenBits PfGenDivRef PfGenLimbs.
+From RV.Proofs Require Import BaseFacts PfGenScalar PfGenAdd PfGenMul PfGenDiv PfGenSpecial PfGenCtor PfGenBits PfGenDivRef PfGenLimbs PfGenRedc.
 
 Theorem GenTie_source_equals_model :
   (forall bits, 0 <= bits -> bits + 63 < B -> g_nlimbs bits = Val (nlimbs bits)) /\
@@ -272,6 +272,16 @@ Theorem GenTie_div_small :
 Proof. exact (conj g_div_nx1_eq g_div_nx2_eq). Qed.
 Print Assumptions GenTie_div_small.
 
+(* algorithms::mul_redc (src/algorithms/mul_redc.rs): const-generic arrays `[u64; N]`, the row loop
+   `for b in b`, the inner loop `for i in 0..N` (reads index i, writes index i-1), the carry threshold on
+   modulus[N-1]; reduce1_carry is the model function (its `zip` iterators are outside the subset).
+   Stated for N >= 1 arrays of equal length N < 2^64 (N = 0: `modulus[0]` inside debug_assert_eq!). *)
+Theorem GenTie_mul_redc : forall N a b md inv,
+  (1 <= length a)%nat -> N = Z.of_nat (length a) -> N < B -> length md = length a ->
+  g_mul_redc N a b md inv = Redc.mul_redc a b md inv.
+Proof. exact g_mul_redc_eq. Qed.
+Print Assumptions GenTie_mul_redc.
+
 (* the premises are satisfiable and the generated code computes: reciprocal(2^63) = 2^64 - 1 *)
 Example GenTie_nonvacuous :
   g_reciprocal_mg10 (2 ^ 63) = Val (2 ^ 64 - 1) /\ g_mask 65 = Val 1 /\ g_nlimbs 65 = Val 2 /\
@@ -283,5 +293,6 @@ Example GenTie_nonvacuous :
   g_adc_n [2 ^ 64 - 1; 1] [1; 0] 0 = Val (0, [0; 2]) /\
   g_div_nx1_normalized [5; 7] (2 ^ 63) = Val (5, [14; 0]) /\
   g_div_nx1 [5; 7] 3 = Val (0, [6148914691236517207; 2]) /\
-  g_div_nx2 [5; 7; 1] (2 ^ 64 + 1) = Val (2 ^ 64, [5; 1; 0]).
+  g_div_nx2 [5; 7; 1] (2 ^ 64 + 1) = Val (2 ^ 64, [5; 1; 0]) /\
+  g_mul_redc 1 [3] [5] [15] 0x1111111111111111 = Val [0].
 Proof. vm_compute. repeat split. Qed.
